@@ -104,8 +104,16 @@ def overrides_for(spec, choice):
         if not cells:
             break
         cell = cells[idx % len(cells)]
-        b, s, r, c = cell['at']
-        key = G.qual_full(spec, b, s).upper() if False else None
+        if v == 'SWAP-KIND':
+            # the equal value of the other kind (1 <-> TRUE, 0 <-> FALSE): equal for Python, different for a workbook
+            cv = cell['v']
+            swaps = [c_ for c_ in cells if isinstance(c_['v'], bool) or (isinstance(c_['v'], float) and c_['v'] in (0.0, 1.0))]
+            if swaps:
+                cell = swaps[idx % len(swaps)]
+                cv = cell['v']
+                v = float(cv) if isinstance(cv, bool) else bool(cv)
+            else:
+                v = True
         inputs[tuple(cell['at'])] = v
     return inputs
 
@@ -173,6 +181,14 @@ def check_spec(case):
                 now = (repr(cc.value if not hasattr(cc.value, 'text') else cc.value.text), cc.data_type)
                 if now != (val, dt):
                     fails.append(('touched|loaded', '%s!%s%d was %r, now %r although it is not in the solution' % (title, G.col(c), r, (val, dt), now)))
+            if inputs:
+                # the same books written a second time, now with the plain solution: every cell shows the second solution
+                sol2 = m.calculate()
+                flat2, _ = G.flatten(sol2)
+                books = m.write(books=books, solution=sol2)
+                f2 = []
+                verify_books(spec, books, flat2, sink + '-second-write', f2)
+                fails += f2[:2]
         else:
             import openpyxl
             outd = os.path.join(d, 'out')
@@ -248,7 +264,7 @@ def check_case(case):
     raise ValueError(case['k'])
 
 
-_VAL = st.one_of(st.sampled_from(G.NUM_CONST), st.sampled_from(G.TXT_CONST + ['', '=x', '#N/A']), st.booleans(),
+_VAL = st.one_of(st.sampled_from(G.NUM_CONST), st.sampled_from(G.TXT_CONST + ['', '=x', '#N/A']), st.booleans(), st.just('SWAP-KIND'), st.just('SWAP-KIND'),
                  st.sampled_from(G.ERR_CONST).map(lambda e: ['E', e]), st.none())
 _CONST = st.one_of(st.sampled_from(G.NUM_CONST), st.sampled_from(G.TXT_CONST), st.booleans(),
                    st.sampled_from(G.ERR_CONST).map(lambda e: ['E', e]), st.sampled_from(['', 'x y', 'ünï']))
@@ -256,7 +272,8 @@ _CONST = st.one_of(st.sampled_from(G.NUM_CONST), st.sampled_from(G.TXT_CONST), s
 
 def _specs(tier):
     return st.builds(lambda spec, sink, over, out: {'k': 'spec', 'spec': spec, 'sink': sink, 'over': over, 'out': out},
-                     G.specs(tier, max_books=2, wholecols=False, const=_CONST),
+                     G.specs(tier, max_books=2, wholecols=False, const=_CONST,
+                             sheet_classes=['plain', 'plain', 'space', 'mixed', 'nonascii', 'casefold']),
                      st.sampled_from(['fresh', 'loaded', 'disk']),
                      st.one_of(st.just([]), st.lists(st.tuples(st.integers(0, 20), _VAL).map(list), min_size=1, max_size=3)),
                      st.integers(0, 20))
